@@ -118,6 +118,7 @@ def num_repr(v):
     return repr(float(v)) if isinstance(v, float) else str(v)
 
 
+TINY_TOLS = [5e-324, 1e-320, 1e-300, 1e-200, 1.5e-162, 1e-100, 1e-30]
 HUGE_TOLS = [1e154, 1.3407807929942597e154, 1.4e154, 1e200, 1e308, 1.7976931348623157e308]   # eps*eps is infinite from 1.3407807929942597e154 on
 
 
@@ -170,6 +171,7 @@ class P(Prop):
         (M, "TV.C16.net_simplify_each", "Network.simplify(tolerance, mode) is simplify() on every edge geometry in the edges' order: when it succeeds the i-th geometry is what simplify returns for the i-th input geometry"),
         (M, "TV.C16.dp_tolerance_any_arithmetic", "T5' (robust tolerance; ANY arithmetic -- rounded, saturating --, only `<` a linear order, as on doubles away from NaN): if a fix whose COMPUTED distance to a chord is < eps is accepted for that chord (W, any predicate: e.g. true distance <= eps + rounding slack) and a vertex is accepted for the segments it ends, then every input fix is accepted for a segment between consecutive vertices of the OUTPUT: the recursion, split and concatenation add no error; T5 is the exact instance (example)"),
         (M, "TV.C16.dp_any_tiebreak_tolerance_any_arithmetic", "T5' for every run with another choice among equally far fixes (the runs the correspondence check accepts)"),
+        (M, "TV.C16.dp_total_zero_laws", "T3' (termination under rounded arithmetic): on a total order whose arithmetic satisfies six zero laws (x-x=0, 0*x=0, 0+0=0, 0/x=0, x+0=x, sqrt 0=0: true of IEEE doubles on finite values; example: integers with truncating division and integer sqrt) distance_to_segment(A; A, B) computes 0 in either branch of `l == 0`, so douglas_peucker returns on every track for every eps > 0"),
         (M, "TV.C16.dp_correct_any_arithmetic", "C16 for Douglas-Peucker under any arithmetic on a total order: given distance_to_segment(A; A, B) never > 0 (checked bit-exactly by the `dist` stream) the call returns, the result is a sub-sequence with both ends, every input fix is accepted (T5')"),
         (M, "TV.C16.vw_threshold", "T10 (threshold semantics; ANY arithmetic on a linear order since this pass -- the areas are the COMPUTED ones, so it is a statement about the float run away from NaN): under T6's hypothesis every interior fix of Visvalingam's result spans with its two neighbours in the result a triangle of area > eps^2 (the '@aire' column stays consistent with the current neighbours; ARGMIN designates a smallest entry)"),
     ]
@@ -233,7 +235,8 @@ class P(Prop):
             "Network.simplify on a network whose first or second edge has the track as geometry; observations carrying feature values without dict entry (Track(other.getObsList()), "
             "i.e. a Douglas-Peucker result as input), Douglas-Peucker always, Visvalingam when the finding is listed. [small units, streams dp/vw/trk] lattices of unit 1e-6..1e-3 "
             "around (0,0), (0.5,0.5), (2.35,48.85), ..., with or without a fix a unit away (differences below / around the 1e-4 of the tolerant ENUCoords.__eq__), long shapes scaled "
-            "by 1e-6..1e-3, tolerances = fractions / small multiples of the smallest coordinate difference and 1e-7..1e-3. [stream `mode`] also mode given as float / bool. "
+            "by 1e-6..1e-3, tolerances = fractions / small multiples of the smallest coordinate difference and 1e-7..1e-3; 1 % of the tolerances are far below any extent "
+            "(5e-324..1e-30: eps*eps underflows to 0 in Visvalingam); 6 % of the `trk` calls pass the tolerance as numpy.float64. [stream `mode`] also mode given as float / bool. "
             "[stream `wild`] coordinates outside any ENU frame (1e101..1e308, inf, NaN, denormals; squares overflow, areas reach ARGMIN's sentinel): the oracle's "
             "domain is finite coordinates up to 1e100 (ENU metres), beyond it only model and code are compared. "
             "non-trivial = at least 3 fixes (a fix can be dropped)")
@@ -253,6 +256,8 @@ class P(Prop):
         from tracklib.io.track_format import TrackFormat
         from tracklib.core import network as NW
         self.GEO, self.ECEF, self.Reader, self.Format, self.NW = GeoCoords, ECEFCoords, TrackReader, TrackFormat, NW
+        import numpy
+        self.np = numpy
         self.tracklib = tracklib
         self._listed = None
 
@@ -338,8 +343,10 @@ class P(Prop):
             t = mirror_dist(float(xs[i]), float(ys[i]), float(xs[a]), float(ys[a]), float(xs[b]), float(ys[b]))
             if not t > 0:
                 t = rng.choice(TOLS)
-        elif r < 0.97:
+        elif r < 0.96:
             t = float("%.3g" % (10 ** rng.uniform(-6, 6)))
+        elif r < 0.97:
+            t = rng.choice(TINY_TOLS)                      # far below any extent, down to the smallest positive double: eps*eps = 0 in Visvalingam
         else:
             t = rng.choice(HUGE_TOLS)                      # far above any extent, up to the largest double: eps*eps = inf in Visvalingam
         return t
@@ -444,6 +451,8 @@ class P(Prop):
             else:
                 c["ts"] = [rng.randrange(0, 100000) for _ in range(n)]
         self.rand_attrs(rng, c)
+        if rng.random() < 0.06:
+            c["tol_form"] = "np64"                          # the tolerance arrives as a numpy.float64 (computed by the caller with numpy)
         if names and c.get("src") != "csv" and rng.random() < 0.08 and (algo == "dp" or self.listed(FINDING_ORPHAN)):
             # observations that carry feature values the track's dict does not name: Track(other.getObsList()), which is also what
             # douglas_peucker itself returns (so: Visvalingam applied to a Douglas-Peucker result)
@@ -608,6 +617,7 @@ class P(Prop):
             t["coords"] = case.get("coords", "ENU")
             t["src"] = case.get("src", "obj")
             t["orphan_rows"] = bool(case.get("orphan"))
+            t["tol_form"] = case.get("tol_form") or "python"
             t["algo"] = case["algo"]
             t["features"] = len(case["names"])
             t["pre_calls"] = len(case.get("pre", []))
@@ -795,7 +805,8 @@ class P(Prop):
                 self.call(target, a, t, "direct")
             except Exception:
                 pass                                          # an earlier call that fails is the business of its own case
-        res = self.call(tr, case["algo"], case["tol"], case["via"], case.get("net_pos", 0))
+        tol = self.np.float64(case["tol"]) if case.get("tol_form") == "np64" else case["tol"]
+        res = self.call(tr, case["algo"], tol, case["via"], case.get("net_pos", 0))
         after = self.snapshot(tr)
         out = self.snapshot(res)
         inp_ids = set(before["ids"])
@@ -1105,6 +1116,8 @@ class P(Prop):
                 yield dict(case, ts=None)
             if case.get("orphan"):
                 yield dict(case, orphan=False)
+            if case.get("tol_form"):
+                yield dict(case, tol_form=None)
             if len(case["names"]) > 1:
                 yield dict(case, names=case["names"][:1], rows=[r[:1] for r in case["rows"]])
             if case["names"] and not case.get("ts"):
